@@ -13,6 +13,7 @@ import (
 	"errors"
 	"fmt"
 	"io"
+	"io/fs"
 	"log"
 	"os"
 	"runtime"
@@ -36,10 +37,24 @@ type scripted struct {
 
 var errScript = errors.New("scripted read failure")
 
+// tempErr is the kind of error a retrying wrapper would be tempted to swallow
+type tempErr struct{}
+
+func (tempErr) Error() string   { return "scripted temporary failure" }
+func (tempErr) Temporary() bool { return true }
+func (tempErr) Timeout() bool   { return true }
+
+// the error value of a scripted failure varies with the position in the stream: a failed read is a failed
+// read whatever the error says about itself (plain, EOF, temporary, interrupted, timeout, wrapped)
+var faultErrs = []error{errScript, io.EOF, syscall.EAGAIN, io.ErrUnexpectedEOF, syscall.EINTR, tempErr{},
+	&fs.PathError{Op: "read", Path: "/dev/urandom", Err: syscall.EAGAIN}, os.ErrDeadlineExceeded}
+
+func (s *scripted) faultErr() error { return faultErrs[(s.consumed+s.reads)%len(faultErrs)] }
+
 func (s *scripted) Read(p []byte) (int, error) {
 	s.reads++
 	if len(s.chunks) == 0 {
-		return 0, errScript
+		return 0, s.faultErr()
 	}
 	c := &s.chunks[0]
 	m := len(p)
@@ -53,7 +68,7 @@ func (s *scripted) Read(p []byte) (int, error) {
 		fail := c.fail
 		s.chunks = s.chunks[1:]
 		if fail {
-			return m, errScript
+			return m, s.faultErr()
 		}
 	}
 	return m, nil
